@@ -222,6 +222,8 @@ class World:
     # ---- values
     def val(self, v):
         if isinstance(v, dict):
+            if "a" in v:            # rich atoms: a float equal to the int atom of the same number / an unhashable list
+                return float(v["n"]) if v["a"] == "f" else [v["n"]]
             return self.pools[v["p"]]
         return v
 
@@ -229,6 +231,10 @@ class World:
         for i, p in enumerate(self.pools):
             if x is p:
                 return {"p": i}
+        if isinstance(x, float) and x == int(x):
+            return {"a": "f", "n": int(x)}
+        if isinstance(x, list) and len(x) == 1 and type(x[0]) is int:
+            return {"a": "l", "n": x[0]}
         if isinstance(x, bool) or not isinstance(x, (int, str)):
             return {"weird": type(x).__name__}
         return x
@@ -330,7 +336,10 @@ class Atoms:
 
     def new(self, rng):
         self.n += 1
-        return self.n if rng.random() < 0.7 else "s%d" % self.n
+        r = rng.random()
+        if r < 0.08:
+            return {"a": rng.choice("fl"), "n": self.n}
+        return self.n if r < 0.72 else "s%d" % self.n
 
 
 def rnd_class(rng, kind):
@@ -494,6 +503,12 @@ def mk_quirk_element(rng, classes, atoms):
     return {"c": len(classes) - 1, "how": "s", "calls": split_calls(rng, pos, kw, "valid", atoms)}
 
 
+def _twin(calls):
+    def tw(v):
+        return {"a": "f", "n": v} if type(v) is int else v
+    return [[[tw(v) for v in a], [[k, tw(v)] for k, v in kw]] for a, kw in calls]
+
+
 def gen_chain(rng, n, shape=None, tail_form=None, quality=None):
     atoms = Atoms()
     classes = []
@@ -534,6 +549,13 @@ def gen_chain(rng, n, shape=None, tail_form=None, quality=None):
         tail = {"tmpl": t}
     if shape is None:
         shape = rnd_shape(rng, 0, n + 1)
+    if n >= 2 and rng.random() < 0.3:
+        # the same class twice in one chain, the second time with arguments that are equal to but not the same as the
+        # first's (3 / 3.0): each template must keep what it was given
+        cand = [i for i, e in enumerate(elems) if e["how"] == "s" and classes[e["c"]]["kind"] == "D" and "unbound" not in e]
+        if len(cand) >= 2:
+            i, j = rng.sample(cand, 2)
+            elems[j] = {"c": elems[i]["c"], "how": "s", "calls": _twin(elems[i]["calls"])}
     case = {"t": "chain", "classes": classes, "elems": elems, "tail": tail, "shape": shape, "quality": quality}
     if n >= 2 and rng.random() < 0.35:
         case["alias"] = rng.randrange(n)
@@ -985,6 +1007,8 @@ def c_val(v):
     if isinstance(v, dict):
         if "p" in v:
             return "(VPool %s)" % cN(v["p"])
+        if "a" in v:
+            return "(VAtom %s)" % cN(100000 + 2 * int(v["n"]) + (v["a"] == "l"))
         return "(VAtom %s)" % cN(999999)
     if isinstance(v, str):
         return "(VAtom %s)" % cN(2 * int(v[1:]) + 1)
